@@ -164,6 +164,11 @@ fn headline_bucket(plain: &str) -> u64 {
     fnv_str(&head)
 }
 
+/// Where L5 writes its module trees
+pub fn work_root() -> PathBuf {
+    vcore::out_root().join("work").join("c06")
+}
+
 pub struct Runner {
     pub rt: Runtime<NoCtx>,
     pub disk_root: PathBuf,
@@ -172,7 +177,9 @@ pub struct Runner {
 
 impl Runner {
     pub fn new() -> Runner {
-        let disk_root = vcore::out_root().join("work").join("c06").join(format!("w{}", std::process::id()));
+        // <out>/work/c06/run<parent pid>/w<worker pid>: concurrent runs do not touch each other
+        let ppid = unsafe { libc::getppid() };
+        let disk_root = work_root().join(format!("run{ppid}")).join(format!("w{}", std::process::id()));
         Runner { rt: host::runtime(), disk_root, disk_ready: false }
     }
 
